@@ -84,6 +84,10 @@ def gen_cases(ctx):
         o = worlds.gen_opts(rng, allow=("buffer", "j", "verbose", "repeat"))
         if rng.random() < 0.5:
             o["buffer"] = True
+        if rng.random() < 0.3:
+            o["color"] = True           # the colourising formatter parses the tracebacks it prints
+        if rng.random() < 0.2:
+            o["xml"] = "xmlout"         # the XML wrapper sits in front of the formatter
         cases.append(cw.Case(w, o))
     return cases
 
